@@ -349,6 +349,9 @@ func c18GenExchange(rng *rand.Rand, id int, big bool, mismatch int) c18Exchange 
 	if rng.IntN(5) == 0 {
 		ex.Gzip = []string{"if-accepted", "if-accepted", "always"}[rng.IntN(3)]
 	}
+	if ex.noBodyStatus() {
+		ex.Gzip = "" // no handler compresses a response that has no body
+	}
 	if rng.IntN(4) == 0 {
 		ts := c18Trailers(rng)
 		cut := rng.IntN(len(ts) + 1)
